@@ -21,13 +21,19 @@ def collect(res, rng, ncase, bad):
         mass = [10 ** rng.uniform(0, 4) for _ in range(ndim)]
         H = np.diag(sorted(rng.uniform(-0.1, 0.1) for _ in range(n)))
         F = np.array([[rng.gauss(0, 1e-2) for _ in range(ndim)] for _ in range(n)])
-        elec = StubElec(H, rand_antisym_dc(rng, n, ndim), F)
+        FM = np.zeros((n, n, ndim))
+        for x_ in range(ndim):
+            A_ = np.array([[rng.gauss(0, 1e-2) for _ in range(n)] for _ in range(n)]); FM[:, :, x_] = 0.5 * (A_ + A_.T)
+            for i_ in range(n): FM[i_, i_, x_] = F[i_, x_]
+        elec = StubElec(H, rand_antisym_dc(rng, n, ndim), F, FM)
         sd = rng.randrange(2 ** 31)
         tr = mudslide.AugmentedFSSH(StubModel(mass, n, [elec]), [0.0] * ndim, [1.0] * ndim, k, dt=rng.choice([0.5, 1.0, 4.0]), seed_sequence=sd, electronics=elec)
         sc = 10 ** rng.uniform(-3, 1)
         tr.delR = np.array([herm(rng, n, sc) for _ in range(ndim)]); tr.delP = np.array([herm(rng, n, sc * 3) for _ in range(ndim)])
         if it % 5 == 0:
             j = (k + 1) % n; tr.delP[0, j, j] = tr.delP[0, k, k]            # exactly equal diagonal momenta: the 1e-10 replacement
+        if it % 5 == 1:
+            j = (k + 1) % n; tr.delP[0, j, j] = tr.delP[0, k, k] + rng.choice([-1, 1]) * 10 ** rng.uniform(-16, -11)      # tiny but non-zero: not replaced
         if it % 7 == 0:
             j = (k + 1) % n; tr.delR[:, j, j] = tr.delR[:, k, k]            # zero position difference: sign(0) = 0
         g = np.array(tr.gamma_collapse(elec))
@@ -47,7 +53,7 @@ def collect(res, rng, ncase, bad):
         for i in range(n):
             if i == k: continue
             e = us[idx]; idx += 1
-            gam[i] = (e + rng.uniform(0.05, 0.5) * (1 - e)) if want_coll else e * rng.uniform(0.0, 0.95)
+            gam[i] = (e + rng.uniform(0.05, 0.5) * (1 - e)) if want_coll else rng.choice([e * rng.uniform(0.0, 0.95), 0.0, -rng.random(), e * 0.5])
         tr.gamma_collapse = lambda el, gam=gam: np.array(gam)
         tr.zeta_list = [1.0e9]; tr.rho = herm(rng, n, 1.0); tr.rho /= np.trace(tr.rho).real
         rho_b, dR_b, dP_b = tr.rho.copy(), tr.delR.copy(), tr.delP.copy()
